@@ -253,3 +253,97 @@ to_local_interval_cross = Contract("C10.GlobalOffset.to_local_interval[crossing 
                                    canaries=[("assert weakened", "assert np.all(stop <= self._sizes[chromosome_idxs])", "assert np.all(stop <= self._sizes[chromosome_idxs] + 1)")])
 
 CONTRACTS = [to_local, from_local, from_local_bad, start_ends, start_ends_clip, start_ends_bad, to_local_interval, to_local_interval_cross]
+
+
+# ----------------------------------------------------------------------------------------------------------
+# windows around locations stay inside the location's own chromosome (get_windows -> GenomicIntervalsFull.clip), and clip/extend on intervals
+from pyvc.pybuiltins import STable as _ST
+
+
+def _GI():
+    from bionumpy.genomic_data import genomic_intervals
+    return genomic_intervals
+
+
+def _table_model(names):
+    return lambda ip, args, kwargs, lineno: _ST(dict(zip(names, args)), args[1].length)
+
+
+def _setup_windows(kind):
+    def setup(ctx):
+        gi = _GI()
+        st = _make_offset(ctx, St())
+        st.m, st.par = z3.Int("m"), z3.Int("flank_or_window")
+        st.c0, st.p0 = z3.Function("c0", z3.IntSort(), z3.IntSort()), z3.Function("pos", z3.IntSort(), z3.IntSort())
+        ctx.ip.class_models[gi.Interval] = _table_model(("chromosome", "start", "stop"))
+        ctx.ip.class_models[gi.StrandedInterval] = _table_model(("chromosome", "start", "stop", "strand"))
+        locs = _ST({"chromosome": SArr.fresh(st.m, lambda i: st.c0(I(i)), enc="genome"), "position": SArr.fresh(st.m, lambda i: st.p0(I(i)))}, st.m)
+        gctx = SRec(None, global_offset=st.selfv)
+        st.offset_obj = st.selfv
+        st.selfv = SRec(gi.GenomicLocationGlobal, _locations=locs, _genome_context=gctx, _is_stranded=False,
+                        _field_dict={"chromosome": "chromosome", "position": "position"})
+        st.args = []
+        st.kwargs = {kind: st.par}
+        st.kind = kind
+        return st
+    return setup
+
+
+def _req_windows(ctx, st):
+    return [st.m >= 0, st.par >= (0 if st.kind == "flank" else 1),
+            Forall(lambda i: Implies(in_range(i, st.m), And(in_range(st.c0(i), st.n), st.p0(i) >= 0, st.p0(i) < st.size(st.c0(i)))), triggers=[st.c0], name="valid locations"),
+            Forall(lambda i: Implies(in_range(i, st.m), And(in_range(st.c0(i), st.n), st.p0(i) >= 0, st.p0(i) < st.size(st.c0(i)))), triggers=[st.p0], name="valid locations'")]
+
+
+def _ens_windows(ctx, st, ret):
+    t = ret.get("_intervals")
+    a, b, c = t.cols["start"], t.cols["stop"], t.cols["chromosome"]
+    if st.kind == "flank":
+        lo, hi = (lambda i: st.p0(i) - st.par), (lambda i: st.p0(i) + st.par + 1)
+    else:
+        q, r = ctx.divmod_(st.par, 2)
+        lo, hi = (lambda i: st.p0(i) - q), (lambda i: st.p0(i) + q + r)
+    return [("same.chromosome", Forall(lambda i: Implies(in_range(i, st.m), c.at(i) == st.c0(i)))),
+            ("inside.the.location's.own.chromosome", Forall(lambda i: Implies(in_range(i, st.m), And(0 <= I(a.at(i)), I(a.at(i)) <= I(b.at(i)), I(b.at(i)) <= st.size(st.c0(i)))))),
+            ("contains.the.location", Forall(lambda i: Implies(in_range(i, st.m), And(I(a.at(i)) <= st.p0(i), st.p0(i) < I(b.at(i)))))),
+            ("is.the.requested.window.clipped", Forall(lambda i: Implies(in_range(i, st.m), And(a.at(i) == Max(0, lo(i)), b.at(i) == Min(st.size(st.c0(i)), hi(i)))))),
+            ("context.kept", ret.get("_genome_context") is st.selfv.get("_genome_context"))]
+
+
+def _hints_w(ctx, st, ks):
+    return []
+
+
+windows_flank = Contract("C10.GenomicLocationGlobal.get_windows[flank]", target=lambda: _GI().GenomicLocationGlobal.get_windows, setup=_setup_windows("flank"),
+                         requires=_req_windows, ensures=_ens_windows, callees=CALLEES,
+                         canaries=[("not clipped", "is_stranded=self.is_stranded()).clip()", "is_stranded=self.is_stranded())"),
+                                   ("right flank one short", "r_flank = flank + 1", "r_flank = flank")])
+windows_size = Contract("C10.GenomicLocationGlobal.get_windows[window_size]", target=lambda: _GI().GenomicLocationGlobal.get_windows, setup=_setup_windows("window_size"),
+                        requires=_req_windows, ensures=_ens_windows, callees=CALLEES,
+                        canaries=[("odd windows lose a base", "r_flank = window_size // 2 + window_size % 2", "r_flank = window_size // 2")])
+
+
+def _setup_gi_clip(ctx):
+    gi = _GI()
+    st = _make_offset(ctx, St())
+    st.m = z3.Int("m")
+    st.c0, st.s0, st.e0 = [z3.Function(x, z3.IntSort(), z3.IntSort()) for x in ("c0", "s0", "e0")]
+    iv = _ST({"chromosome": SArr.fresh(st.m, lambda i: st.c0(I(i)), enc="genome"), "start": SArr.fresh(st.m, lambda i: st.s0(I(i))),
+              "stop": SArr.fresh(st.m, lambda i: st.e0(I(i)))}, st.m)
+    st.selfv = SRec(gi.GenomicIntervalsFull, _intervals=iv, _genome_context=SRec(None, global_offset=st.selfv), _is_stranded=False)
+    st.args = []
+    return st
+
+
+def _ens_gi_clip(ctx, st, ret):
+    t = ret.get("_intervals")
+    a, b = t.cols["start"], t.cols["stop"]
+    return [("clipped.to.its.own.chromosome", Forall(lambda i: Implies(in_range(i, st.m), And(a.at(i) == Max(0, st.s0(i)), b.at(i) == Min(st.size(st.c0(i)), st.e0(i)))))),
+            ("chromosome.kept", t.cols["chromosome"] is st.selfv.get("_intervals").cols["chromosome"])]
+
+
+gi_clip = Contract("C10.GenomicIntervalsFull.clip", target=lambda: _GI().GenomicIntervalsFull.clip, setup=_setup_gi_clip,
+                   requires=lambda ctx, st: [st.m >= 0, Forall(lambda i: Implies(in_range(i, st.m), in_range(st.c0(i), st.n)), triggers=[st.c0], name="valid chromosome codes")],
+                   ensures=_ens_gi_clip, callees=CALLEES,
+                   canaries=[("fast path that forgets negative starts", "        return replace(self,", "        return self if np.all(self.stop <= chrom_sizes) else replace(self,")])
+CONTRACTS += [windows_flank, windows_size, gi_clip]
